@@ -102,7 +102,8 @@ Next == \/ \E o \in Declarable : Uses(o)
         \/ \E o \in Outside \cup Creatable, p \in Outside \cup Creatable : Transfer(o, p)
         \/ \E n \in Declarable : ClashCreate(n)
         \/ \E n \in Creatable : ClashUses(n)
-        \/ \E s \in StageNames : StartStage(s) \/ EndStage(s)
+        \/ \E s \in StageNames : StartStage(s)
+        \/ \E s \in StageNames \cup {"never-started"} : EndStage(s)   \* ending a stage that is not the open one
         \/ Bake
 Spec == Init /\ [][Next]_vars
 
